@@ -96,7 +96,8 @@ func recvTypeName(fn *ssa.Function) (pkgPath, name string) {
 		t = pt.Elem()
 	}
 	if n, ok := t.(*types.Named); ok && n.Obj().Pkg() != nil {
-		return n.Obj().Pkg().Path(), n.Obj().Name()
+		// spelled as on the pinned tree (an unexported receiver type may have been renamed)
+		return n.Obj().Pkg().Path(), aliasFor(n.Obj().Pkg()).pinned("type", n.Obj().Pkg().Path(), "", n.Obj().Name())
 	}
 	return "", ""
 }
